@@ -20,7 +20,17 @@ func init() {
 			"(3) deny is sticky and everything else is a union when rules for one pattern are merged; " +
 			"(4) the priority comparator of non-exact matches is the documented lexicographic order (first wildcard/glob position, prefix-ness, wildcard count, length, text) — decided by enumerating the closure's CFG paths over the five compared keys — and the caller takes the greatest element after sorting; exact matches are consulted before non-exact ones; " +
 			"(5) rule paths and request paths are namespace-qualified, and the qualifying store lies on every path from the creation of a rule object to its append to the policy's paths; " +
-			"(6) ownership: the per-request ACL never aliases mutable state of the cached policy objects — everything inserted into the ACL's rule trees comes from ACLPermissions.Clone or from the trees themselves, and map-typed permission fields are only assigned deep copies — so decisions cannot depend on which ACLs were built earlier.",
+			"(6) ownership: the per-request ACL never aliases mutable state of the cached policy objects — everything inserted into the ACL's rule trees comes from ACLPermissions.Clone or from the trees themselves, and map-typed permission fields are only assigned deep copies — so decisions cannot depend on which ACLs were built earlier; " +
+			"(7) the rule stored under the request path without its trailing slash is consulted for list and scan only; " +
+			"(8) for read/update/create/patch every allowing path ran the required-parameter loop to its end, then (when the request carries parameters) found denied_parameters empty or ran the denied loop to its end, then found allowed_parameters empty, equal to {\"*\"} or ran the allowed loop to its end; the refusing edges (required parameter absent, \"*\" denied, denied value, value outside the allowed list, parameter outside allowed_parameters without \"*\") never reach an allow; " +
+			"(9) list and scan alike evaluate pagination_limit, and a limit above it, a negative limit or a missing required limit never reaches an allow; " +
+			"(10) rules of a cached policy are merged, and cached policies handed out, only across the not-expired edges of their expiration; " +
+			"(11) merging keeps the smaller of two max_wrapping_ttl / pagination_limit values; " +
+			"(12) parameter names are lower-cased both where the parser stores them and where AllowOperation looks them up; " +
+			"(13) the parser strips a trailing glob and sets IsPrefix together and never for segment-wildcard rules, and the legacy policy shorthands expand to the reviewed capability sets; the candidates handed to the priority comparator carry keys computed from their own pattern (prefix candidate: isPrefix, position = length of the matched prefix; segment candidate: strings.Index of '+', permissions looked up under the same pattern); " +
+			"(14) Store.ACL fetches every attached policy name in the namespace it is attached in and builds no ACL after a failed fetch; " +
+			"(15) Core.Capabilities builds the reported ACL from the looked-up token's own namespace, entity and no_identity_policies flag and refuses disabled or dangling entities first; " +
+			"(16) list filtering keeps a key only across the Allowed edge of a per-key policy check made with the request's ACL, the templated path, the router's root-path flag and the unauth flag, and writes back only filtered keys and their key_info.",
 		NotDecided: "equality of decisions over the input space (radix lookups, glob/segment matching, valueInParameterList, parameter-list merging are value-level); pagination arithmetic; templated policies.",
 		Run:        runC03,
 	})
@@ -173,6 +183,7 @@ func runC03(c *eng.Ctx, thorough bool) {
 		}
 		c.Floor(f, "rule objects appended to paths", nApp, 1)
 	}
+	runC03Gaps2(c)
 }
 
 // appendedAllocs: the local objects whose address is an element of the
